@@ -23,6 +23,25 @@ def hmsg(kind, L, salt):
     return o
 
 
+def hmsg_aligned(kind, L, salt, frag):
+    """handover message of about L octets with three records whose second record ends exactly on a fragment boundary
+    (k * frag octets): reassembly must go on although the octets received so far end with a complete record"""
+    rnd = random.Random(salt * 7919 + L)
+    rec = ndef.HandoverRequestRecord("1.3", rnd.getrandbits(16)) if kind == "Hr" else ndef.HandoverSelectRecord("1.3")
+    rec.add_alternative_carrier("active", "c1")
+    tail = ndef.Record("application/x-pad", "c2", bytes(rnd.getrandbits(8) for _ in range(max(1, min(40, L // 8)))))
+    tail_len = len(b"".join(ndef.message_encoder([tail])))
+    k = max(1, (L - tail_len) // frag)
+    for p1 in range(0, k * frag + 1):
+        mid = ndef.Record("application/x-pad", "c1", bytes((i * 7 + salt) & 0xFF for i in range(p1)))
+        o = b"".join(ndef.message_encoder([rec, mid, tail]))
+        if len(o) - tail_len == k * frag:
+            return o
+        if len(o) - tail_len > k * frag:
+            break
+    return hmsg(kind, L, salt)
+
+
 def model_check(ck, quick):
     r = tlc.run("Handover.tla", "MC_Handover.cfg", PID, workers=8, timeout=600)
     if not r.ok:
@@ -53,7 +72,7 @@ def gen_cfgs(tier, seed):
                         link_srv=dict(miu=lm_s, lto=rnd.choice([100, 500]), agf=rnd.random() < 0.6),
                         link_cli=dict(miu=lm_c, lto=rnd.choice([100, 500]), agf=rnd.random() < 0.6),
                         srv_miu=srv_miu, srv_rw=rnd.choice([1, 2, 15]), cli_miu=cli_miu, cli_rw=rnd.choice([1, 2, 7]),
-                        reqs=reqs))
+                        reqs=reqs, aligned=(cm, sm) if i % 3 == 2 else None))
     return out
 
 
@@ -66,7 +85,12 @@ def run_handover(cfg):
     errors, state = [], {}
     answers = {}
     try:
-        msgs = [(hmsg("Hr", L, cfg["seed"] + i), hmsg("Hs", G, cfg["seed"] + 31 * i + 7)) for i, (L, G) in enumerate(cfg["reqs"])]
+        if cfg.get("aligned"):      # a record boundary on a fragment boundary, in both directions
+            cm, sm = cfg["aligned"]
+            msgs = [(hmsg_aligned("Hr", L, cfg["seed"] + i, cm), hmsg_aligned("Hs", G, cfg["seed"] + 31 * i + 7, sm))
+                    for i, (L, G) in enumerate(cfg["reqs"])]
+        else:
+            msgs = [(hmsg("Hr", L, cfg["seed"] + i), hmsg("Hs", G, cfg["seed"] + 31 * i + 7)) for i, (L, G) in enumerate(cfg["reqs"])]
         for rq, rs in msgs:
             answers[crc(rq)] = rs
 
